@@ -37,6 +37,77 @@ def profile_diff(c):
             c["viols"][sig] = {"sig": sig, "detail": "outcome digest of case %s:%s differs between mon-chk (overflow-checks on) and mon-rel (off)" % (o, i),
                                "stage": "%s:?" % o, "idx": int(i), "case": {"stage_ord": o, "idx": i}, "profile": "mon-rel"}
 
+def _run(cmd, cwd, env_extra, timeout):
+    import subprocess, os
+    env = dict(os.environ, CARGO_NET_OFFLINE="true")
+    env.update(env_extra)
+    try:
+        p = subprocess.run(cmd, cwd=cwd, env=env, stdout=subprocess.PIPE, stderr=subprocess.STDOUT, text=True, timeout=timeout)
+        return p.returncode, p.stdout
+    except subprocess.TimeoutExpired as e:
+        return None, (e.stdout or "") if isinstance(e.stdout, str) else ""
+    except Exception as e:  # tool missing etc.
+        return None, str(e)
+
+
+def miri_stage(c):
+    """Thorough only, evidence only: a miniature of the workload under Miri (UB / data-race interpreter over the
+    dependency code rscel reaches: hashbrown, regex, chrono, serde). rscel has no unsafe code, so a Miri report is a
+    SANITIZER-NOTE, never a property violation; a Miri that cannot run is recorded as skipped."""
+    import os, time
+    if c["tier"] != "thorough":
+        return
+    t0 = time.time()
+    harness = os.path.join(c["root"], "harness")
+    rc, out = _run(["cargo", "+nightly", "miri", "run", "--offline", "--", "smoke", "12", "2", "12"], harness,
+                   {"MIRIFLAGS": "-Zmiri-disable-isolation", "RUSTFLAGS": "--cfg rscel_verif"}, 3000)
+    line = [l for l in out.splitlines() if l.startswith("SMOKE ")]
+    rec = {"ran": bool(line), "exit": rc, "wall_s": round(time.time() - t0, 1), "observed": line[0] if line else None,
+           "undefined_behaviour_reports": out.count("Undefined Behavior"), "data_race_reports": out.count("Data race detected")}
+    if not line:
+        rec["skipped_reason"] = out[-400:]
+    c["extra_cov"]["miri"] = rec
+    if rec["undefined_behaviour_reports"] or rec["data_race_reports"]:
+        c["notes"].append({"t": "note", "kind": "SANITIZER-NOTE", "text": "Miri: " + out[-1500:]})
+
+
+def asan_stage(c):
+    """Thorough only, evidence only: one 64th of the C01 workload (grammar, mutation, ladders) under AddressSanitizer.
+    ASan frames are 2-3x larger, so a stack overflow seen only here is a note; heap reports are notes as well."""
+    import os, time, glob
+    if c["tier"] != "thorough":
+        return
+    t0 = time.time()
+    harness = os.path.join(c["root"], "harness")
+    tdir = os.path.join(harness, "target-asan")
+    flags = "-Zsanitizer=address -Cforce-frame-pointers=yes --cfg rscel_verif"
+    rc, out = _run(["cargo", "build", "--offline", "--profile", "mon-rel", "--target", "x86_64-unknown-linux-gnu", "--target-dir", tdir, "--quiet"],
+                   harness, {"RUSTFLAGS": flags}, 1800)
+    binary = os.path.join(tdir, "x86_64-unknown-linux-gnu", "mon-rel", "rvmon")
+    rec = {"built": rc == 0 and os.path.exists(binary)}
+    if not rec["built"]:
+        rec["skipped_reason"] = out[-400:]
+        c["extra_cov"]["asan"] = rec
+        return
+    outp = os.path.join(c["wdir"], "asan.jsonl")
+    rc, out = _run([binary, "run", "C01", "--seed", str(c["seed"]), "--tier", "quick", "--shard", "5/64", "--out", outp],
+                   c["wdir"], {"ASAN_OPTIONS": "detect_leaks=0:halt_on_error=1:abort_on_error=0"}, 1800)
+    evals = 0
+    try:
+        import json
+        for line in open(outp):
+            r = json.loads(line)
+            if r.get("t") == "stat":
+                evals += r["evaluations"]
+    except Exception:
+        pass
+    reports = out.count("ERROR: AddressSanitizer")
+    rec.update({"exit": rc, "evaluations": evals, "asan_reports": reports, "wall_s": round(time.time() - t0, 1)})
+    c["extra_cov"]["asan"] = rec
+    if reports:
+        c["notes"].append({"t": "note", "kind": "SANITIZER-NOTE", "text": "ASan: " + out[-1500:]})
+
+
 def maporder_across_processes(c):
     """every worker evaluates the same battery of map literals; the key order must not depend on the process"""
     seen = {}
@@ -131,7 +202,7 @@ CONFIG = {
     },
     "C11": {
         "profiles": BOTH,
-        "post": [maporder_across_processes],
+        "post": [maporder_across_processes, miri_stage],
         "rule": "one evaluation = one Exec / Inspect of a history compared with the sequential model (or one repeated / threaded execution); distinct non-trivial = distinct histories "
                 "with at least two state-changing operations before an Exec",
         "floors": {"quick": {"_evaluations": 300000, "execs_compared_with_fresh_context": 100000, "histories/len3": 30000, "repetitions": 5000,
@@ -395,6 +466,7 @@ CONFIG = {
     },
     "C01": {
         "profiles": BOTH,
+        "post": [asan_stage, miri_stage],
         "rule": "one evaluation = one compile+exec (or exec of a precompiled built-in call) through the public API; "
                 "distinct non-trivial = distinct source texts (sweep programs, literal-form calls, every non-empty corpus prefix, "
                 "mutated and random sources of >= 2 characters)",
